@@ -453,7 +453,7 @@ func marshalTo(read *thrift.BinaryProtocol, write *thrift.BinaryProtocol, from *
 	switch t := to.Type(); t {
 	case thrift.STRUCT:
 		if from == to {
-			return nil
+			goto skip_val
 		}
 		var req *thrift.RequiresBitmap
 		if !opts.NotCheckRequireNess {
